@@ -194,12 +194,26 @@ def make_data(w, x, d):
     if d[0] == "arr":
         arr = np.array(d[1], dtype=float)
         return arr
-    if d[0] == "bad":
-        return np.zeros((2, D))
+    if d[0] == "bad":        # not a vector: every shape but (D,) is refused, whatever its first axis is
+        k = d[1] if len(d) > 1 else 0
+        return [np.zeros((2, D)), np.eye(D), np.ones((D, 3)), [[1.0] * D for _ in range(D)], np.ones((D, 1)),
+                np.array(2.0), np.ones((D, D, 2))][k % 7]
     _, vec, voc, alg = d
     if voc == "n":
         return spa.SemanticPointer(np.array(vec, dtype=float), algebra=ALGS[alg])
     return spa.SemanticPointer(np.array(vec, dtype=float), vocab=w.v[voc])
+
+
+def inplace_solver(a, y):
+    for m_ in (a, y):
+        try:
+            m_ -= 1.0
+            m_ *= 2.0
+        except ValueError:      # read-only arrays: left alone
+            pass
+    if a.shape[0] == 0:
+        return np.zeros((a.shape[1], y.shape[1])), {}
+    return np.linalg.lstsq(a, y, rcond=None)[0], {}
 
 
 def apply_op(w, op):
@@ -261,8 +275,13 @@ def apply_op(w, op):
                     info["order2"] = list(ks)
                     return real(ks)
                 tgt.populate, tgt.create_subset = rec_pop, rec_sub
+                # every second request brings a least-squares solver that preprocesses its two arguments IN PLACE
+                # when NumPy lets it (centring / scaling, as user-written solvers do): whatever it is handed must
+                # not be the stored vectors of either vocabulary
+                w.n_tr = getattr(w, "n_tr", 0) + 1
+                kw = {"solver": inplace_solver} if w.n_tr % 2 == 0 else {}
                 try:
-                    w.v[x].transform_to(tgt, populate=pop, keys=None if keys is None else list(keys))
+                    w.v[x].transform_to(tgt, populate=pop, keys=None if keys is None else list(keys), **kw)
                 finally:
                     del tgt.populate, tgt.create_subset
                 return "done", info
@@ -618,7 +637,7 @@ def alphabet(full):
         ("tr", "b", None, True, (), ()),
     ]
     if full:
-        ops += [("has", "a", "A"), ("mut", "a"), ("get", "a", "Identity"), ("add", "a", "F", ("bad",))]
+        ops += [("has", "a", "A"), ("mut", "a"), ("get", "a", "Identity"), ("add", "a", "F", ("bad",)), ("add", "a", "F", ("bad", 1))]
     return ops
 
 
@@ -674,7 +693,7 @@ def random_op(rng, cfg):
         if dk < 0.5:
             d = ("arr", vec(D if rng.random() < 0.8 else rng.choice([0, 1, 3, 5, 16])))
         elif dk < 0.58:
-            d = ("bad",)
+            d = ("bad", rng.randrange(7))
         else:
             voc = rng.choice(["n", "n", x, x, "b" if x == "a" else "a"])
             alg = getattr(cfg, voc)[1] if voc != "n" else (own if rng.random() < 0.6 else rng.randrange(3))
